@@ -131,6 +131,39 @@ def run(tier, seed, opens):
         else:
             what = 'round trip' if back != raw else 'txid'
             fail(what, raw, (back.hex()[:300] if back != raw else t.txid), (raw.hex()[:300] if back != raw else dsha(stripped)[::-1].hex()), pid)
+    # transactions built through the API: the bytes, read by the independent parser, carry exactly the fields that were supplied
+    from bitcoinlib.transactions import Input, Output
+    for _ in range(60 if tier == 'quick' else 3000):
+        cases += 1
+        version = rng.choice([2, 3, 2])          # (add_input deliberately raises version 1 to 2 for relative lock-time sequences)
+        locktime = rng.choice([0, 1, 499999999, 500000000, 0xfffffffe])
+        n_in, n_out = rng.choice([1, 1, 2, 3]), rng.choice([1, 2, 3])
+        ins = [(bytes(rng.getrandbits(8) for _ in range(32)), rng.choice([0, 1, 7, 65535, 0xfffffffe]), rng.choice([0, 1, 0xfffffffd, 0xfffffffe, 0xffffffff, rng.getrandbits(32)]))
+               for _ in range(n_in)]
+        outs = [(rng.choice([0, 1, 546, 10 ** 8, 21 * 10 ** 14]), rng.choice([b'\x51', b'\x76\xa9\x14' + bytes(20) + b'\x88\xac', b'\x00\x14' + bytes(range(20)), b'\xa9\x14' + bytes(range(1, 21)) + b'\x87']))
+                for _ in range(n_out)]
+        supplied = {'version': version, 'locktime': locktime, 'inputs': [(a.hex(), b, c) for a, b, c in ins], 'outputs': [(v, sc.hex()) for v, sc in outs]}
+        try:
+            via = rng.choice(['add', 'objects'])
+            if via == 'add':
+                t = Transaction(version=version, locktime=locktime, network='bitcoin', witness_type='legacy')
+                for txid, vout, seq in ins:
+                    t.add_input(prev_txid=txid, output_n=vout, sequence=seq, witness_type='legacy')
+                for v, sc in outs:
+                    t.add_output(v, lock_script=sc)
+            else:
+                t = Transaction([Input(prev_txid=txid, output_n=vout, sequence=seq, witness_type='legacy', index_n=k) for k, (txid, vout, seq) in enumerate(ins)],
+                                [Output(v, lock_script=sc, output_n=k, strict=False) for k, (v, sc) in enumerate(outs)],
+                                version=version, locktime=locktime, network='bitcoin', witness_type='legacy')
+            raw = t.raw()
+            pv, pins, pouts, plock, pwit, used = wire.parse_tx(raw)
+            back = {'version': pv, 'locktime': plock, 'inputs': [(a[::-1].hex(), b, d) for a, b, c, d, e in pins], 'outputs': [(v, sc.hex()) for v, sc in pouts]}
+            if back == supplied and used == len(raw):
+                ok += 1
+            else:
+                fail('API-built transaction read back', raw, repr(back)[:300], repr(supplied)[:300])
+        except Exception as e:
+            fail('API-built transaction', b'', 'raises %r (supplied %s)' % (e, repr(supplied)[:200]), 'a transaction')
     res = {'contract': 'Transaction.parse/raw[bounded]', 'target': 'bitcoinlib.transactions.Transaction.parse_bytesio, raw, txid', 'status': 'ok', 'props': ['C06'],
            'bounded': '%d random well-formed transactions (see module docstring for the shape distribution)' % n,
            'paths': cases, 'obligations': [{'name': 'Transaction#bounded-parse-raw-roundtrip', 'kind': 'bounded', 'paths': cases, 'discharged': ok,
